@@ -202,9 +202,23 @@ func cRun(h cHistory, dir string) (viol []cViolation) {
 	// finding, and this process is finished (its goroutine stays blocked)
 	guarded := func(what string, f func()) bool {
 		ch := make(chan struct{})
-		go func() { f(); close(ch) }()
+		panicked := ""
+		go func() {
+			defer func() {
+				if r := recover(); r != nil {
+					panicked = fmt.Sprint(r)
+				}
+				close(ch)
+			}()
+			f()
+		}()
 		select {
 		case <-ch:
+			if panicked != "" {
+				fail("no-panic", what+"-panicked", "%s panicked: %.300s", what, panicked)
+				cHung = true // the connection is in an unknown state: this process is done
+				return false
+			}
 			return true
 		case <-time.After(20 * time.Second):
 			fail("prompt", what+"-never-returned", "%s has not returned 20 s after its context ended; %s", what, cStacks())
